@@ -95,7 +95,7 @@ func checkC20(r *core.Run) {
 	r.Floor("C20.reentry", 3)
 	r.Floor("C20.guarded", 15)
 	r.Floor("C20.release", 10)
-	r.Floor("C20.block", 3)
+	r.Floor("C20.block", 2) // the two deliveries may share one send (a completing method of the future)
 	_ = w
 }
 
